@@ -36,7 +36,8 @@ FAMILY = {
 
 
 def aol(**kw):
-    d = dict(Topics=S(['t1', 't2']), ViewTopics=S(['t1', 't2']), Kinds=AOL_KINDS)
+    # empty optional fields are part of every AOL alphabet: a topic without description, writers and records encodes to ZERO bytes in the store
+    d = dict(Topics=S(['t1', 't2']), ViewTopics=S(['t1', 't2']), Kinds=AOL_KINDS, Descs=S(['x', '']), Mons=S(['m', '']))
     d.update(kw)
     return mk(**d)
 
@@ -73,9 +74,9 @@ def preset(pid, tier):
     q = tier == 'quick'
     if pid == 'C01':
         return dict(
-            mc=aol(MaxDeliver=5 if q else 6, NextKinds=ALL_NEXT, MaxHeight=3),
+            mc=aol(Descs=S(['x']), Mons=S(['m']), MaxDeliver=5 if q else 6, NextKinds=ALL_NEXT, MaxHeight=3),
             props=['P_C01', 'P_C08', 'P_C10'], invs=['I_C01'],
-            tour=aol(Accts=S(['a1', 'a2']), Topics=S(['t1']), ViewTopics=S(['t1']), FeePayers=S(['none', 'a1']), MaxDeliver=4 if q else 5, MaxHeight=2),
+            tour=aol(Accts=S(['a1', 'a2']), Topics=S(['t1']), ViewTopics=S(['t1']), Descs=S(['x']), Mons=S(['m']), FeePayers=S(['none', 'a1']), MaxDeliver=4 if q else 5, MaxHeight=2),
             sims=[sim(aol(Accts=S(['a1', 'a2', 'a3', 'a4']), Topics=S(['t1', 't2', 't3']), ViewTopics=S(['t1', 't2', 't3']), RecKeys=S(['k1', 'k2', '']), RecVals=S(['v1', 'v2', '']),
                           FeePayers=S(['none', 'a1', 'a3']), MaxDeliver=40, MaxHeight=8, NextKinds=ALL_NEXT_R, FailKeep=40), 120 if q else 2000, 50),
                   sim(aol(MaxDeliver=12, MaxHeight=6, NextKinds=ALL_NEXT, FailKeep=10), 80 if q else 1500, 25, genesis=dict(mint=True)),
@@ -83,15 +84,15 @@ def preset(pid, tier):
                   sim(aol(FeePayers=S(['none', 'a2']), MaxDeliver=14, MaxHeight=5, NextKinds=ALL_NEXT, FailKeep=10), 30 if q else 500, 25, genesis=dict(upper=['a2']))])
     if pid == 'C02':
         return dict(
-            mc=aol(Topics=S(['t1']), ViewTopics=S(['t1']), RecVals=S(['v1']), SignerSets='all', FeePayers=S(['none', 'a1', 'a2']), MaxDeliver=4 if q else 5,
+            mc=aol(Topics=S(['t1']), ViewTopics=S(['t1']), RecVals=S(['v1']), Descs=S(['x']), Mons=S(['m']), SignerSets='all', FeePayers=S(['none', 'a1', 'a2']), MaxDeliver=4 if q else 5,
                    ExecOn=True, Kinds=AOL_KINDS | S(['authz.Grant']), MaxHeight=2),
             props=['P_C02'], invs=[],
-            tour=[dict(constants=aol(Accts=S(['a1', 'a2', 'a3']), Topics=S(['t1']), ViewTopics=S(['t1']), RecVals=S(['v1']), SignerSets='all', FeePayers=S(['none', 'a1', 'a2']),
+            tour=[dict(constants=aol(Accts=S(['a1', 'a2', 'a3']), Topics=S(['t1']), ViewTopics=S(['t1']), RecVals=S(['v1']), Descs=S(['x']), Mons=S(['m']), SignerSets='all', FeePayers=S(['none', 'a1', 'a2']),
                                      MaxDeliver=3 if q else 4, MaxHeight=2, ExecOn=False)),
                   # rollback probes: [m1, m2, always-failing] for every ordered pair, then the whole alphabet again - in the same process
-                  dict(constants=aol(Accts=S(['a1', 'a2']), Topics=S(['t1']), ViewTopics=S(['t1']), RecVals=S(['v1']), MaxDeliver=2 if q else 3, MaxHeight=2), probes=True),
+                  dict(constants=aol(Accts=S(['a1', 'a2']), Topics=S(['t1']), ViewTopics=S(['t1']), RecVals=S(['v1']), Descs=S(['x']), Mons=S(['m']), MaxDeliver=2 if q else 3, MaxHeight=2), probes=True),
                   # two topics of one owner whose names differ only in letter case: a writer of one is not a writer of the other
-                  dict(constants=aol(Accts=S(['a1', 'a2']), Topics=S(['t1', 'tc']), ViewTopics=S(['t1', 'tc']), RecVals=S(['v1']), MaxDeliver=3 if q else 4, MaxHeight=2))],
+                  dict(constants=aol(Accts=S(['a1', 'a2']), Topics=S(['t1', 'tc']), ViewTopics=S(['t1', 'tc']), RecVals=S(['v1']), Descs=S(['x']), Mons=S(['m']), MaxDeliver=3 if q else 4, MaxHeight=2))],
             sims=[sim(aol(Accts=S(['a1', 'a2', 'a3', 'a4']), SignerSets='all', FeePayers=S(['none', 'a1', 'a2', 'a3']), ExecOn=True,
                           Kinds=AOL_KINDS | S(['authz.Grant', 'authz.Revoke']), Fees=S([0, 1]), MaxDeliver=40, MaxHeight=6, FailKeep=8), 150 if q else 3000, 40),
                   # three-message transactions over one topic: work done by the first messages and rolled back by a failing last one must leave no authorisation behind
@@ -99,9 +100,9 @@ def preset(pid, tier):
                       60 if q else 1200, 30)])
     if pid == 'C13':
         return dict(
-            mc=aol(MaxDeliver=5 if q else 6, MaxHeight=2),
+            mc=aol(Mons=S(['m']), MaxDeliver=5 if q else 6, MaxHeight=2),
             props=[], invs=['I_C13'],
-            tour=aol(Accts=S(['a1', 'a2']), Topics=S(['t1', 't2']) if not q else S(['t1']), ViewTopics=S(['t1', 't2']), RecVals=S(['v1']), MaxDeliver=4 if q else 5, MaxHeight=2),
+            tour=aol(Accts=S(['a1', 'a2']), Topics=S(['t1', 't2']) if not q else S(['t1']), ViewTopics=S(['t1', 't2']), RecVals=S(['v1']), Mons=S(['m']), MaxDeliver=4 if q else 5, MaxHeight=2),
             sims=[sim(aol(Accts=S(['a1', 'a2', 'a3', 'a4']), Topics=S(['t1', 't2', 't3', 't4']), ViewTopics=S(['t1', 't2', 't3', 't4']),
                           MaxDeliver=50, MaxHeight=5, FailKeep=60), 60 if q else 1000, 60, views='full'),
                   # more topics under one owner, and more writers and records in one topic, than any default page size (150 bulk entries owned by a4);
